@@ -2261,7 +2261,7 @@ def count_calls(f):
 
 
 WORK_FACTOR = 3.0     # function calls per octet may grow by this much between the smallest and any larger size
-TIME_FACTOR = 8.0     # wall time per octet (best of N), only a secondary signal: a loaded machine must not raise an alarm
+TIME_FACTOR = 12.0    # wall time per octet (best of N), only a secondary signal: a loaded machine must not raise an alarm
 
 
 def measure_work(tier):
